@@ -24,7 +24,7 @@ for r in rows:
 det = sum(1 for r in rows if not r[3].startswith('—'))
 own_det = sum(1 for r in rows if r[3].startswith('**'))
 tbl += '\n%d of %d seeded changes are reported (exit 1, VIOLATION line) by at least one registered check, %d of them by the check of the property they were seeded against (bold).\n' % (det, len(rows), own_det)
-open(os.path.join(HERE, 'seeded', 'README.md'), 'w').write('# Seeded changes\n\nEach directory: patch.diff, demo.c, notes.txt (the sub-agent\'s own description), confirm.txt, meta.json.\n`benign/` holds behaviour-preserving refactorings that must raise no alarm (devtools/benign.sh).\n\n' + tbl)
+open(os.path.join(HERE, 'seeded', 'README.md'), 'w').write('# Seeded changes\n\nEach directory `<PROP>-<n>/`: patch.diff, demo.c, notes.txt (the sub-agent\'s own description), confirm.txt, meta.json (n = 1, 2: first round; 3, 4: second round).\n`benign/` ... `benign8/` hold 124 behaviour-preserving refactorings (NN.diff each alone, all.diff together, README.txt) that must raise no alarm (devtools/benign.py).\nNone of these patches is ever committed to /repo: devtools/record_all.py and devtools/benign.py apply one with `git -C /repo apply`, run the checks, and undo it with `git -C /repo checkout -- .`.\n\n' + tbl)
 p = os.path.join(HERE, 'DESIGN.md')
 s = open(p).read()
 if 'SEED_TABLE_PLACEHOLDER' in s:
